@@ -1,9 +1,119 @@
-(* C05 - a definition is accepted iff it obeys the static rules.  Statements only (work in progress). *)
+(* C05 - a definition is accepted if and only if it obeys the static rules of DSDL.  Statements only.
+
+   accept (Rules/Accept.v) replays the checks of pydsdl where the code makes them; Valid (Rules/Spec.v) is the
+   declarative conjunction of the rules as the property lists them.  The correspondence check (Check/C05.v) compares
+   the implementation's verdict with accept on generated definitions. *)
 From Coq Require Import ZArith List Bool Lia.
-From PV Require Import Util.ListSet BLS.Model Layout.Types Rules.Names Rules.Defn Rules.Accept.
+From PV Require Import Util.ListSet Util.Sumset BLS.Model BLS.Den Layout.Types
+  Rules.Names Rules.NamesSpec Rules.NamesProofs Rules.Defn Rules.Accept Rules.Spec
+  Rules.ProofsLocal Rules.ProofsRun Rules.Proofs Rules.Boundaries.
 Import ListNotations.
 Open Scope Z_scope.
 
-Theorem C05_width_uint : forall e i w c, scalar_ok e i (XUInt w c) = true <-> 1 <= w <= 64.
-Proof. intros. cbn. unfold width_ok. rewrite andb_true_iff, !Z.leb_le. tauto. Qed.
-Print Assumptions C05_width_uint.
+(* the main statement: for every environment and every definition of the abstract syntax *)
+Theorem C05_iff : forall e d, accept e d = true <-> Valid e d.
+Proof. exact accept_iff_valid. Qed.
+Print Assumptions C05_iff.
+
+(* check_name = identifier syntax [a-zA-Z_][a-zA-Z0-9_]* and the lowered name is not reserved
+   (Reserved: the 22 words, void\d*, u?int\d*, u?q\d+_\d+, float\d*, com\d, lpt\d, _.*_) *)
+Theorem C05_names : forall s, name_ok s = true <-> IdentSyntax s /\ ~ Reserved (lower s).
+Proof. exact name_ok_spec. Qed.
+Print Assumptions C05_names.
+
+(* reserved words and patterns are case-insensitive *)
+Theorem C05_names_case : forall s t, lower s = lower t -> name_ok s = name_ok t.
+Proof. exact name_ok_case_insensitive. Qed.
+Print Assumptions C05_names_case.
+
+(* the handlers, run in statement order from the initial state, succeed exactly when the positional rules hold, and
+   then the builder's final state is the summary of the section *)
+Theorem C05_handlers : forall e i first depr0 sec b, (first = true -> depr0 = false) ->
+  (run e i first (init_state depr0) sec = Some b <-> Positional e i first sec /\ b = summary depr0 sec).
+Proof. exact run_init. Qed.
+Print Assumptions C05_handlers.
+
+(* boundaries of the type parameters: width 0/1/64/65, signed 1/2/64/65 and never truncated, float 16/32/64 only,
+   void 0/1/64/65, capacity 0/1 (and 1/2 for the exclusive form), 2^64-1 / 2^64 for the length prefix *)
+Theorem C05_boundaries_types : forall e i,
+  (forall c, scalar_ok e i (XUInt 0 c) = false /\ scalar_ok e i (XUInt 1 c) = true
+             /\ scalar_ok e i (XUInt 64 c) = true /\ scalar_ok e i (XUInt 65 c) = false)
+  /\ (scalar_ok e i (XSInt 1 Sat) = false /\ scalar_ok e i (XSInt 2 Sat) = true
+      /\ scalar_ok e i (XSInt 64 Sat) = true /\ scalar_ok e i (XSInt 65 Sat) = false
+      /\ forall w, scalar_ok e i (XSInt w Trunc) = false)
+  /\ (forall w c, scalar_ok e i (XFloat w c) = true <-> w = 16 \/ w = 32 \/ w = 64)
+  /\ (scalar_ok e i (XVoid 0) = false /\ scalar_ok e i (XVoid 1) = true
+      /\ scalar_ok e i (XVoid 64) = true /\ scalar_ok e i (XVoid 65) = false)
+  /\ (forall s, scalar_ok e i s = true -> is_service_ref e i s = false ->
+        type_ok e i (TxFix s 0) = false /\ type_ok e i (TxFix s 1) = true
+        /\ type_ok e i (TxVarI s 0) = false /\ type_ok e i (TxVarI s 1) = true
+        /\ type_ok e i (TxVarE s 1) = false /\ type_ok e i (TxVarE s 2) = true
+        /\ type_ok e i (TxVarI s (2 ^ 64 - 1)) = true /\ type_ok e i (TxVarI s (2 ^ 64)) = false).
+Proof. exact type_boundaries. Qed.
+Print Assumptions C05_boundaries_types.
+
+Theorem C05_boundaries_version : forall r ns s p,
+  version_ok (mkId r ns s 0 0 p) = false /\ version_ok (mkId r ns s 0 1 p) = true
+  /\ version_ok (mkId r ns s 1 0 p) = true /\ version_ok (mkId r ns s 255 255 p) = true
+  /\ version_ok (mkId r ns s 256 0 p) = false /\ version_ok (mkId r ns s 0 256 p) = false
+  /\ version_ok (mkId r ns s (-1) 1 p) = false.
+Proof. exact version_boundaries. Qed.
+Print Assumptions C05_boundaries_version.
+
+Theorem C05_boundaries_ports :
+  (subject_port_ok (Some 0) = true /\ subject_port_ok (Some 8191) = true /\ subject_port_ok (Some 8192) = false
+   /\ subject_port_ok (Some (-1)) = false
+   /\ service_port_ok (Some 0) = true /\ service_port_ok (Some 511) = true /\ service_port_ok (Some 512) = false
+   /\ subject_port_ok None = true /\ service_port_ok None = true)
+  /\ (reg false [110;115] 6143 false = false /\ reg false [110;115] 6144 false = true
+      /\ reg false [110;115] 7167 false = true /\ reg false [110;115] 7168 false = false
+      /\ reg false w_uavcan 7167 false = false /\ reg false w_uavcan 7168 false = true
+      /\ reg false w_cyphal 8191 false = true /\ reg false w_cyphal 8192 false = false
+      /\ reg false [110;115] 255 true = false /\ reg false [110;115] 256 true = true
+      /\ reg false [110;115] 383 true = true /\ reg false [110;115] 384 true = false
+      /\ reg false w_uavcan 383 true = false /\ reg false w_uavcan 384 true = true
+      /\ reg false w_cyphal 511 true = true /\ reg false w_cyphal 512 true = false
+      /\ (forall root p service, reg true root p service = true)).
+Proof. exact (conj port_boundaries regulated_boundaries). Qed.
+Print Assumptions C05_boundaries_ports.
+
+(* the extent: accepted iff a multiple of 8 and >= the inner extent M; M and M+8 pass, M-8 and M+1..M+7 do not *)
+Theorem C05_boundaries_extent : forall e i dp un at_ z,
+  let M := extent (inner_ty e i (mkB dp MNone un at_)) in
+  M mod 8 = 0 ->
+  (mode_ok e i (mkB dp (MDelim z) un at_) = true <-> z mod 8 = 0 /\ M <= z)
+  /\ (z = M -> mode_ok e i (mkB dp (MDelim z) un at_) = true)
+  /\ (z = M + 8 -> mode_ok e i (mkB dp (MDelim z) un at_) = true)
+  /\ (z = M - 8 -> mode_ok e i (mkB dp (MDelim z) un at_) = false)
+  /\ (M < z < M + 8 -> mode_ok e i (mkB dp (MDelim z) un at_) = false).
+Proof. exact extent_boundaries. Qed.
+Print Assumptions C05_boundaries_extent.
+
+(* "not smaller than the longest representation": the inner extent bounds every member of the bit length set (C01) *)
+Theorem C05_extent_longest : forall e i b z, wf (bls (inner_ty e i b)) ->
+  (extent (inner_ty e i b) <= z <-> forall x, Den (bls (inner_ty e i b)) x -> x <= z).
+Proof. exact extent_longest. Qed.
+Print Assumptions C05_extent_longest.
+
+(* the request / response schemas of a service are named Name.Request / Name.Response: 8 / 9 more characters count
+   against the limit of 255 *)
+Theorem C05_name_length_service : forall i,
+  joined_length (composite_name i KRequest) = joined_length (full_name i) + 8
+  /\ joined_length (composite_name i KResponse) = joined_length (full_name i) + 9.
+Proof. exact name_length_service. Qed.
+Print Assumptions C05_name_length_service.
+
+(* ---- non-vacuity: a valid service definition with a dependency, and an invalid neighbour ---------------------- *)
+Definition ex_dep : dep := mkDep [[110;115]; [68]] 1 0 true false (TStruct [] [(Some [102], TPrim (PUInt 8 Sat))]).
+Definition ex_env : env := mkEnv [ex_dep] false.
+Definition ex_id : ident := mkId [110;115] [] [84] 1 0 (Some 300).
+Definition ex_defn (ext : Z) : defn :=
+  mkDefn ex_id
+    [SDir DDeprecated None; SDir DUnion None; SField (TxVarI (XRef [[68]] 1 0) 3) [97]; SField (TxS (XUInt 7 Trunc)) [98];
+     SConst (TxS (XUInt 8 Sat)) [67] (VStr [97]); SDir DExtent (Some (VRat ext 1))]
+    [[SField (TxVarI XUtf8 10) [115]; SPad 3; SDir DSealed None; SDir DAssert (Some (VBool true))]].
+
+Example C05_nonvacuous : Valid ex_env (ex_defn 40) /\ ~ Valid ex_env (ex_defn 32) /\ ~ Valid ex_env (ex_defn 44).
+Proof.
+  rewrite <- !C05_iff. split; [vm_compute; reflexivity|]. split; vm_compute; discriminate.
+Qed.
